@@ -3,6 +3,8 @@
 #include "sched.hpp"
 #include "util.hpp"
 #include <sys/mman.h>
+#include <cstdarg>
+#include <cstdio>
 #include <unordered_map>
 #include <map>
 #include <cassert>
@@ -399,4 +401,13 @@ void __sim_trap_free(void* p) {
 char* __sim_trap_strdup(const char* s) { trap("strdup"); return strdup(s); }
 void* __sim_trap_aligned_alloc(size_t a, size_t n) { trap("aligned_alloc"); return aligned_alloc(a, n); }
 int __sim_trap_posix_memalign(void** out, size_t a, size_t n) { trap("posix_memalign"); return posix_memalign(out, a, n); }
+char* __sim_trap_strndup(const char* s, size_t n) { trap("strndup"); return strndup(s, n); }
+char* __sim_trap___strdup(const char* s) { trap("strdup"); return strdup(s); }
+void* __sim_trap_reallocarray(void* p, size_t a, size_t b) { trap("reallocarray"); return reallocarray(p, a, b); }
+void* __sim_trap_memalign(size_t a, size_t n) { trap("memalign"); return aligned_alloc(a, n); }
+void* __sim_trap_valloc(size_t n) { trap("valloc"); return aligned_alloc(4096, (n + 4095) & ~(size_t)4095); }
+ssize_t __sim_trap_getline(char** l, size_t* n, FILE* f) { trap("getline"); return getline(l, n, f); }
+FILE* __sim_trap_open_memstream(char** p, size_t* n) { trap("open_memstream"); return open_memstream(p, n); }
+int __sim_trap_vasprintf(char** out, const char* f, va_list ap) { trap("vasprintf"); return vasprintf(out, f, ap); }
+int __sim_trap_asprintf(char** out, const char* f, ...) { trap("asprintf"); va_list ap; va_start(ap, f); int r = vasprintf(out, f, ap); va_end(ap); return r; }
 }
